@@ -525,9 +525,10 @@ def to_model(data_file: typing.IO, _config = None, progress_callback=lambda _: N
     if state in (_State.TEXT, _State.TEXT_MORE):
 
       if line is None or _EMPTY_RE.fullmatch(line):
-        subtitle_text = subtitle_text.strip('\r\n').replace(r"\n\r", "\n")
+        if state is _State.TEXT_MORE:
+          subtitle_text = subtitle_text.strip('\r\n').replace(r"\n\r", "\n")
 
-        _parse_cue_text(subtitle_text, current_p, line_index)
+          _parse_cue_text(subtitle_text, current_p, line_index)
 
         state = _State.LOOKING
         continue
